@@ -50,7 +50,11 @@ func init() {
 		// (a result that lands under another key is a value "belonging to another key")
 		return genFOBase(r, foShape{minClients: 1, maxClients: 6, maxKeys: 3, maxOps: 4, sleeps: true, skipRead: true, faults: true, ctxTTL: false, callerTricks: run%8 == 0})
 	}
-	gens["C04"] = func(r *rand.Rand, _ int, _ string) *Scenario {
+	gens["C04"] = func(r *rand.Rand, run int, _ string) *Scenario {
+		if run%8 == 3 {
+			return genC04Waiters(r)
+		}
+
 		sc := genFOBase(r, foShape{minClients: 1, maxClients: 5, maxKeys: 3, maxOps: 4, sleeps: true, skipRead: true, faults: true, callerTricks: true})
 		sc.FO.Followup = true
 
@@ -73,6 +77,57 @@ func init() {
 }
 
 const c02Sweep = 16
+
+// genC04Waiters: several Gets on one key that are all runnable from the start: a quick first build, waiters
+// that find its lock, and later owners (SkipRead, or after an uncached failure) whose builders sleep for
+// seconds. A waiter is bound to the build it found; it must not end up waiting for a later owner's builder.
+// The debug logger is on, so that the moment a Get starts waiting is observable (C04.R6).
+func genC04Waiters(r *rand.Rand) *Scenario {
+	sc := genFOBase(r, foShape{minClients: 3, maxClients: 6, maxKeys: 1, maxOps: 1})
+	fo := sc.FO
+	fo.Faults = FOFaults{}
+	fo.Cfg.Logger = true
+	fo.Cfg.FailedUpdateTTLNs = pick(r, int64(-1), -1, 0)
+	fo.Cfg.SyncRead = chance(r, 0.5)
+	fo.Followup = true
+
+	for i := range fo.Init {
+		fo.Init[i] = FOInit{Key: i, State: pick(r, "absent", "absent", "stale"), AgeNs: 3600 * sec, FailAgeNs: -1}
+	}
+
+	if fo.Cfg.MaxStalenessNs == 0 {
+		fo.Cfg.MaxStalenessNs = 10 * sec // a stale value that old is not servable: Gets wait
+	}
+
+	for c := range fo.Clients {
+		fo.Clients[c] = []FOOp{{Kind: "get", Key: 0}}
+		op := &fo.Clients[c][0]
+
+		switch {
+		case c == 0:
+			op.BuildFail = chance(r, 0.5)
+		case chance(r, 0.5):
+			op.SkipRead = true
+			op.BuildSleepNs = pick(r, 2*sec, 7*sec)
+			// a forced rebuild that arrives a few dozen scheduling steps later (the clock ticks once per step)
+			fo.Clients[c] = []FOOp{{Kind: "sleep", SleepNs: pick(r, int64(10), 20, 30, 50, 80) * sc.TickNs}, *op}
+		default:
+			op.BuildSleepNs = pick(r, int64(0), 2*sec)
+			op.BuildFail = chance(r, 0.3)
+		}
+	}
+
+	sc.NoFastPath = true
+	sc.Sched = genSched(r, 120)
+
+	// the interesting orders keep one Get paused for a long stretch while others run to completion: priority
+	// schedules with a few change points do that far more often than uniform random choice
+	if chance(r, 0.7) {
+		sc.Sched = SchedSpec{Kind: "pct", Seed: r.Uint64(), Depth: 2 + r.IntN(3), Horizon: 40 + r.IntN(80)}
+	}
+
+	return sc
+}
 
 // genFOExpireAllRace: Gets on expired entries (within and beyond MaxStaleness) while another goroutine calls
 // ExpireAll on the backend again and again: every entry's expiry instant moves under the Gets' feet, and
@@ -378,11 +433,84 @@ func (r *foRun) oracleC04() {
 		}
 	}
 
+	// R6 (bounded liveness in simulated time). When a Get logs "waiting for cache value" it is bound to the key
+	// lock it has found: the lock of a Get that was invoked before that moment (or of its background build). It
+	// depends on nothing that is invoked later. A runnable task is always scheduled before the clock jumps, so
+	// once everything it can depend on has returned the waiter is at most a few thousand ticks (far below half a
+	// simulated second) from returning; if it came back only after a build of a Get invoked later that slept for
+	// a second or more, it waited for that build. (Needs a logger with the debug level.)
+	for _, o := range r.ops {
+		if !o.done || len(o.builds) > 0 {
+			continue
+		}
+
+		var sw uint64
+
+		for _, l := range r.logs {
+			if l.msg == "waiting for cache value" && l.task == o.task && l.seq > o.inv && l.seq < o.ret {
+				sw = l.seq
+
+				break
+			}
+		}
+
+		if sw == 0 {
+			continue
+		}
+
+		dep, open := o.invNs, false
+
+		for _, p := range r.ops {
+			if p == o || p.key != o.key || p.inv > sw {
+				continue
+			}
+
+			if !p.done {
+				open = true
+			} else if p.ret > sw && p.retNs > dep {
+				dep = p.retNs
+			}
+
+			for _, b := range p.builds {
+				if !b.exited {
+					open = true
+				} else if b.exit > sw && b.exitNs > dep {
+					dep = b.exitNs
+				}
+			}
+		}
+
+		if open {
+			continue
+		}
+
+		out.probe("waiter_liveness_checked")
+
+		for _, b := range r.builds {
+			if b.key == o.key && b.exited && b.op.inv > sw && b.exitNs-b.enterNs >= int64(time.Second) &&
+				o.retNs >= b.exitNs && o.retNs-dep > int64(500*time.Millisecond) {
+				out.violate("C04.R6", "waited-for-unrelated-later-build", "%s Get(%q) started waiting at seq %d; every Get and build of the key it could depend on (invoked before that) had returned by t=%v, yet it returned at t=%v, only after the build of %s (invoked at seq %d, built t=%v..%v), which it does not depend on",
+					o.id(), o.key, sw, dur(dep-r.t0()), dur(o.retNs-r.t0()), b.op.id(), b.op.inv, dur(b.enterNs-r.t0()), dur(b.exitNs-r.t0()))
+
+				break
+			}
+		}
+	}
+
 	if !r.sc.Followup || len(out.Violations) > 0 {
 		return
 	}
 
 	r.followup()
+}
+
+// t0 is the bubble clock's epoch (simulated instants are printed relative to it).
+func (r *foRun) t0() int64 {
+	if len(r.ops) > 0 {
+		return r.ops[0].invNs
+	}
+
+	return 0
 }
 
 // followup is C04.R3: after forcing everything to expire, one fault-free Get per key from a
